@@ -251,7 +251,8 @@ Print Assumptions C16_divergence_sums_to_zero_3d.
      (1) the right-hand side is the divergence D of the final gradients and sums to zero (solvable problem);
      (2) if the solver made an iteration and reports err <= tol, then |D - Laplacian(surface)| <= tol |D| (l2);
      (3) if it reports err = 0 (exact solve), Laplacian(surface) = D at every grid point;
-     (4) if it stopped before itmax, it reports err <= tol.
+     (4) if it stopped before itmax, it reports err <= tol (or err = 0: the residual was exactly zero, e.g. a repeated call
+         on unchanged data - after "fix: PMF integration returned NaN when the initial guess already solved the system").
    In exact (real) arithmetic the recurred residual IS the true residual; that the floating-point recurrence
    stays close to it, and that the iteration converges within itmax, is checked numerically by the tie. *)
 Theorem C16_poisson_2d : forall (sc : smooth_cfg) (sm : bool) (sh : shape2 (T:=R)) (st0 : state2 (T:=R))
@@ -264,7 +265,7 @@ Theorem C16_poisson_2d : forall (sc : smooth_cfg) (sm : bool) (sh : shape2 (T:=R
   ((1 <= out_iter _ o)%Z -> (out_err _ o <= tol)%R ->
      (l2norm Rops _ (all_ix2 sh) (fun p => (D p - atimes2 Rops sh (out_x _ o) p)%R) <= tol * l2norm Rops _ (all_ix2 sh) D)%R) /\
   ((1 <= out_iter _ o)%Z -> out_err _ o = 0%R -> forall p, in_pmf2 sh p -> atimes2 Rops sh (out_x _ o) p = D p) /\
-  ((1 <= out_iter _ o < Z.of_nat itmax)%Z -> (out_err _ o <= tol)%R).
+  ((1 <= out_iter _ o < Z.of_nat itmax)%Z -> (out_err _ o <= tol)%R \/ out_err _ o = 0%R).
 Proof. exact poisson2_history. Qed.
 Print Assumptions C16_poisson_2d.
 
@@ -278,7 +279,7 @@ Theorem C16_poisson_3d : forall (sc : smooth_cfg) (sm : bool) (sh : shape3 (T:=R
   ((1 <= out_iter _ o)%Z -> (out_err _ o <= tol)%R ->
      (l2norm Rops _ (all_ix3 sh) (fun p => (D p - atimes3 Rops sh (out_x _ o) p)%R) <= tol * l2norm Rops _ (all_ix3 sh) D)%R) /\
   ((1 <= out_iter _ o)%Z -> out_err _ o = 0%R -> forall p, in_pmf3 sh p -> atimes3 Rops sh (out_x _ o) p = D p) /\
-  ((1 <= out_iter _ o < Z.of_nat itmax)%Z -> (out_err _ o <= tol)%R).
+  ((1 <= out_iter _ o < Z.of_nat itmax)%Z -> (out_err _ o <= tol)%R \/ out_err _ o = 0%R).
 Proof. exact poisson3_history. Qed.
 Print Assumptions C16_poisson_3d.
 
